@@ -1,6 +1,7 @@
 package main
 
 import (
+	"encoding/json"
 	"fmt"
 	"sort"
 
@@ -27,7 +28,9 @@ func init() {
 		}
 		for i := 0; i < n; i++ {
 			g := newDocgen(rng, false)
-			base := c14case{doc: g.signableStep(), penv: g.pipelineEnv(), repo: sx.Pick(rng, []string{"git@github.com:o/r.git", "https://example.org/r", "repo"})}
+			penv0 := g.pipelineEnv()
+			g.penvNames = sortedKeys(penv0)
+			base := c14case{doc: g.signableStep(), penv: penv0, repo: sx.Pick(rng, []string{"git@github.com:o/r.git", "https://example.org/r", "repo"})}
 			ki := i % len(keys)
 			key := keys[ki]
 			cs, text, err := stepFromDoc(base.doc)
@@ -137,6 +140,42 @@ func init() {
 				add("value-spliced-from-other-step", true, func(m *c01mut) bool { m.value = "other"; return true })
 			}
 			add("value-garbage", true, func(m *c01mut) bool { m.value = "garbage"; return true })
+
+			// tampering hidden behind unknown fields: the typed field is changed while an unknown field of the
+			// same name carries the signed value (typed fields must win when the step is marshalled for signing)
+			if cs.Matrix != nil {
+				tcs := *cs
+				tm := *cs.Matrix
+				tcs.Matrix = &tm
+				origSetup, _ := json.Marshal(cs.Matrix.Setup)
+				var origAny any
+				json.Unmarshal(origSetup, &origAny)
+				tm.Setup = pipeline.MatrixSetup{}
+				for d, v := range cs.Matrix.Setup {
+					tm.Setup[d] = append(append([]string{}, v...), "tampered-value")
+				}
+				if len(tm.Setup) == 0 {
+					tm.Setup["evil"] = []string{"tampered-value"}
+				}
+				tm.RemainingFields = map[string]any{}
+				for k, v := range cs.Matrix.RemainingFields {
+					tm.RemainingFields[k] = v
+				}
+				tm.RemainingFields["setup"] = origAny
+				if err := verifyStep(key, sg, &tcs, base.repo, base.penv); err == nil {
+					oracleFail("C01", "verdict-hidden-behind-unknown-field", sx.A(text), "the matrix setup was changed while an unknown field named `setup` carries the signed value, and Verify still succeeds")
+				}
+				stat("C01", "mut-hidden-behind-unknown-field")
+			}
+			tcs2 := *cs
+			tcs2.Command = cs.Command + " && evil"
+			tcs2.RemainingFields = map[string]any{"command": cs.Command}
+			for k, v := range cs.RemainingFields {
+				tcs2.RemainingFields[k] = v
+			}
+			if err := verifyStep(key, sg, &tcs2, base.repo, base.penv); err == nil {
+				oracleFail("C01", "verdict-hidden-behind-unknown-field", sx.A(text), "the command was changed while an unknown field named `command` carries the signed value, and Verify still succeeds")
+			}
 
 			origDoc, _ := docSexp(text)
 			orig := sx.L(origDoc, pairsSexp(base.penv), sx.A(base.repo), sx.A(fmt.Sprintf("key%d", ki)))
